@@ -22,6 +22,12 @@ ASSUMPTIONS = [
 TRUSTED = ["harness/pipeline.py (tie)", "lxml"]
 
 
+def _tail(src, t):
+    """t (which ends with </svg>) in place of the root's closing tag — not of a nested svg's"""
+    i = src.rindex("</svg>")
+    return src[:i] + t + src[i + len("</svg>"):]
+
+
 PAINT_FORMS = [" url(#%s)", "url(#%s) ", "url('#%s')", 'url( #%s )', "url(#%s) red", "url(#%s) none", "url(#%s)red", "url(#%s)#00f", "DOT"]
 
 
@@ -39,18 +45,18 @@ def sharing_doc(rng, force_form=None):
     if k < 0.3 and g.grad_ids:
         # make generated-id collisions likely
         gid = rng.choice(g.grad_ids)
-        src = src.replace("</svg>", '<rect id="%s_0" width="5" height="5"/><rect id="%s_1" width="4" height="4" fill="url(#%s)" transform="translate(3 3)"/></svg>' % (gid, gid, gid))
+        src = _tail(src, '<rect id="%s_0" width="5" height="5"/><rect id="%s_1" width="4" height="4" fill="url(#%s)" transform="translate(3 3)"/></svg>' % (gid, gid, gid))
     elif k < 0.45:
-        src = src.replace("</svg>", '<rect id="nested-svg-viewport-0" width="5" height="5"/><svg x="5" y="5" width="20" height="20"><circle r="30"/></svg></svg>')
+        src = _tail(src, '<rect id="nested-svg-viewport-0" width="5" height="5"/><svg x="5" y="5" width="20" height="20"><circle r="30"/></svg></svg>')
     elif k < 0.6 and g.grad_ids:
         gid = rng.choice(g.grad_ids)
         # the only user of a gradient is invisible
-        src = src.replace("</svg>", '<rect width="0" height="10" fill="url(#%s)"/><path d="M1,1" fill="url(#%s)"/></svg>' % (gid, gid))
+        src = _tail(src, '<rect width="0" height="10" fill="url(#%s)"/><path d="M1,1" fill="url(#%s)"/></svg>' % (gid, gid))
     elif k < 0.7 and g.grad_ids:
         gid = rng.choice(g.grad_ids)
         # a gradient whose only user is text (kept with allow_text) or sits inside an unsupported element (dropped with
         # drop_unsupported)
-        src = src.replace("</svg>", rng.choice(['<text x="5" y="20" fill="url(#%s)">Hi</text></svg>', '<text x="5" y="20" stroke="url(#%s)">Hi</text></svg>',
+        src = _tail(src, rng.choice(['<text x="5" y="20" fill="url(#%s)">Hi</text></svg>', '<text x="5" y="20" stroke="url(#%s)">Hi</text></svg>',
                                                   '<foo><rect width="9" height="9" fill="url(#%s)"/></foo></svg>']) % gid)
     elif k < 0.8 and g.grad_ids:
         # the other ways CSS writes a paint reference, and ids with characters outside [A-Za-z0-9_-]
@@ -61,18 +67,18 @@ def sharing_doc(rng, force_form=None):
             src = src.replace('"%s"' % gid, '"%s"' % new).replace("#%s)" % gid, "#%s)" % new).replace('"#%s"' % gid, '"#%s"' % new)
         else:
             val = (form % gid).replace('"', "&quot;")
-            src = src.replace("</svg>", '<rect x="3" y="4" width="12" height="9" fill="%s"/></svg>' % val)
+            src = _tail(src, '<rect x="3" y="4" width="12" height="9" fill="%s"/></svg>' % val)
     elif k < 0.83 and g.grad_ids:
         # fill and stroke of one transformed shape painted by the same gradient: two copies are written, each needs its own id
         gid = rng.choice(g.grad_ids)
-        src = src.replace("</svg>", '<rect x="4" y="5" width="20" height="14" fill="url(#%s)" stroke="url(#%s)" stroke-width="%s" transform="%s"/></svg>'
+        src = _tail(src, '<rect x="4" y="5" width="20" height="14" fill="url(#%s)" stroke="url(#%s)" stroke-width="%s" transform="%s"/></svg>'
                           % (gid, gid, rng.choice(["2", "3.5"]), rng.choice(["rotate(10)", "translate(3 4) scale(1.5 0.7)", "skewX(12)"])))
     elif k < 0.88:
         # a paint server the converter cannot keep: a pattern (known finding: the reference is left dangling)
-        src = src.replace("</svg>", PATTERN_TAIL)
+        src = _tail(src, PATTERN_TAIL)
     elif k < 0.93:
         # a gradient written inside a symbol without id (it outlives the symbol since de121e8)
-        src = src.replace("</svg>", SYMBOL_TAIL)
+        src = _tail(src, SYMBOL_TAIL)
     return src
 
 
